@@ -52,6 +52,11 @@ CLAIMED = {
         note=PROOF_NOTE + "lint passes being severity-independent is structural in the model and validated by the same-findings comparison.",
         technique="Lean 4 theorems + regenerated lint/severity table + same-program-under-random-configurations correspondence + CLI runs",
         design="§4 C10"),
+    "C11": dict(
+        text="Lean 4: panic sites are modelled as explicit failure values or dependent indices and shown unreachable - find_global never panics for any library incl. one naming an undefined struct (C11_find_no_panic via C06_find_total), the name_path assert of lint_invalid_field_access is unreachable (C11_field_access_nonempty), Deprecated::try_instead's parameter index is provably in bounds for every format (total by typing, C11_try_instead_total, %0 witnesses), ranges on character boundaries never crash a writer (C11_ranges_wf_no_crash from C20), every lint name the models emit is registered (C11_lint_names_exist over the regenerated table). The remaining ~250 unwrap/expect sites are covered by the catch_unwind correspondence run over programs x 5 built-in libraries x configurations and generated libraries.",
+        note=PROOF_NOTE + "PARTIAL by design: only the listed panic sites are modelled; the rest rely on full_moon invariants and sampling. One dependency finding recorded (full_moon parser panic).",
+        technique="Lean 4 unreachability / totality theorems for the modelled panic sites + catch_unwind well-formedness sweep of the real checker",
+        design="§4 C11"),
     "C12": dict(
         text="Lean 4: the lazily initialised global tree (OnceCell) is threaded as explicit state through every lookup and proved unobservable - any history of lookups through one checker answers exactly like fresh stateless lookups, wherever a query occurs (C12_history, C12_order_independent); the one hash-map iteration that reaches a diagnostic (possible standard libraries) yields the same sorted list for every iteration order (C12_hash_order, via mergeSort/permutation lemmas). Tied to the code by running one shared Arc<Checker> over shuffled sequences and 8 threads vs fresh runs (content and order), CLI process restarts, lookup histories through one library value vs the cache model, and a source audit for un-sorted hash iteration.",
         note=PROOF_NOTE + "PARTIAL by nature: memory-level thread interleavings are Rust's Sync guarantee, schedules are sampled; hash lookups are assumed order-free, iteration is audited by regex.",
